@@ -3,7 +3,7 @@
    All distances are squared Euclidean distances over Z (see Model.v). *)
 From Coq Require Import ZArith List Bool Lia Permutation.
 Import ListNotations.
-From FV.C16 Require Import Model ProofsSort ProofsKnn ProofsHd ProofsHop ProofsBuild.
+From FV.C16 Require Import Model ProofsSort ProofsKnn ProofsHd ProofsHop ProofsBuild ProofsScale.
 From FV.C16.gen Require Import Bounds.
 Open Scope Z_scope.
 
@@ -228,6 +228,25 @@ Proof.
   - apply pop_min_ok.
   - unfold sc. destruct A; [congruence|discriminate].
   - unfold sc. destruct B; [congruence|discriminate].
+Qed.
+
+(* the specifications on the pre-scaled points (on which the exact octree is
+   built) are the scaled specifications of the original points: scaling by s > 0
+   multiplies every squared distance by s^2 and changes no comparison *)
+Theorem C16_specs_scale :
+  forall s, 0 < s ->
+    (forall k bound q pts,
+       knn_spec_dists k (scaleD (s * s) bound) (scale_pt s q) (map (scale_pt s) pts) =
+       map (scaleD (s * s)) (knn_spec_dists k bound q pts)) /\
+    (forall A B, hausdorff_directed_spec (map (scale_pt s) A) (map (scale_pt s) B) =
+                 scaleD (s * s) (hausdorff_directed_spec A B)) /\
+    (forall A B, hausdorff_spec (map (scale_pt s) A) (map (scale_pt s) B) =
+                 scaleD (s * s) (hausdorff_spec A B)).
+Proof.
+  intros s Hs. split; [|split]; intros.
+  - apply knn_spec_dists_scale; auto.
+  - apply hausdorff_directed_spec_scale; auto.
+  - apply hausdorff_spec_scale; auto.
 Qed.
 
 (* Tie T: gen/Bounds.v is re-translated from the source text of
